@@ -105,9 +105,76 @@ func rootFunc(f *ssa.Function) *ssa.Function {
 	return f
 }
 
+// deepVia: the mutation target is reached through a pointer/slice loaded from
+// field F of parameter p (p.F[i] = x, copy(p.F, ..), flip(p.F[:n])): returns
+// (p, F). A direct write of the parameter's own field (p.F = x) is shallow.
+func deepVia(target ssa.Value) (*ssa.Parameter, string, bool) {
+	v := target
+	loads := 0
+	field := ""
+	for i := 0; i < 16; i++ {
+		switch x := v.(type) {
+		case *ssa.IndexAddr:
+			v = x.X
+		case *ssa.Slice:
+			v = x.X
+		case *ssa.FieldAddr:
+			if loads > 0 && field == "" {
+				field = fieldName(x.X.Type(), x.Field)
+			} else if loads > 0 {
+				// deeper than one level: keep the outermost field name
+				field = fieldName(x.X.Type(), x.Field)
+			}
+			v = x.X
+		case *ssa.UnOp:
+			if x.Op != token.MUL {
+				return nil, "", false
+			}
+			loads++
+			v = x.X
+		case *ssa.Alloc:
+			st := uniqueStore(x)
+			if st == nil {
+				return nil, "", false
+			}
+			if p, ok := st.(*ssa.Parameter); ok && loads > 0 && field != "" {
+				// value receiver spilled to a local: p.F loaded from the spill
+				loads--
+				if loads > 0 {
+					return p, field, true
+				}
+				return nil, "", false
+			}
+			v = st
+		case *ssa.Parameter:
+			if loads > 0 && field != "" {
+				return x, field, true
+			}
+			return nil, "", false
+		default:
+			return nil, "", false
+		}
+	}
+	return nil, "", false
+}
+
 func runC10Write(c *Ctx) {
 	env := newProvEnv(c.P)
 	mutates := map[*ssa.Function]map[int]bool{}
+	deep := map[*ssa.Function]map[int]map[string]bool{} // f -> param -> fields through which memory is written
+	addDeep := func(f *ssa.Function, idx int, field string) bool {
+		if deep[f] == nil {
+			deep[f] = map[int]map[string]bool{}
+		}
+		if deep[f][idx] == nil {
+			deep[f][idx] = map[string]bool{}
+		}
+		if deep[f][idx][field] {
+			return false
+		}
+		deep[f][idx][field] = true
+		return true
+	}
 	var funcs []*ssa.Function
 	for _, f := range c.P.Funcs {
 		if pk := pkgOf(f); pk == "geom" || pk == "rtree" {
@@ -124,7 +191,51 @@ func runC10Write(c *Ctx) {
 		changed := false
 		final = final[:0]
 		for _, f := range funcs {
-			for _, s := range mutationSites(f, mutates) {
+			sites := mutationSites(f, mutates)
+			// call sites of functions that write through a field of a struct parameter
+			eachCall(f, func(call ssa.CallInstruction) {
+				cal := staticCallee(call)
+				if cal == nil || deep[cal] == nil {
+					return
+				}
+				args := call.Common().Args
+				for j, fields := range deep[cal] {
+					if j >= len(args) {
+						continue
+					}
+					for field := range fields {
+						root := args[j]
+						// forwarding the caller's own struct pointer
+						if p, ok := root.(*ssa.Parameter); ok {
+							if idx := paramIndex(f, p); idx >= 0 && addDeep(f, idx, field) {
+								changed = true
+							}
+							continue
+						}
+						// pointer to a local struct: the memory written is whatever was put into local.field
+						if al, ok := root.(*ssa.Alloc); ok {
+							for _, r := range *al.Referrers() {
+								fa, ok := r.(*ssa.FieldAddr)
+								if !ok || fieldName(fa.X.Type(), fa.Field) != field {
+									continue
+								}
+								for _, rr := range *fa.Referrers() {
+									if st, ok := rr.(*ssa.Store); ok && st.Addr == fa {
+										sites = append(sites, mutSite{call.(ssa.Instruction), st.Val, fmt.Sprintf("call of %s, which writes through field %s of its argument %d;", FuncName(cal), field, j)})
+									}
+								}
+							}
+						}
+					}
+				}
+			})
+			for _, s := range sites {
+				if p, field, ok := deepVia(s.target); ok {
+					owner := p.Parent()
+					if idx := paramIndex(owner, p); idx >= 0 && addDeep(owner, idx, field) {
+						changed = true
+					}
+				}
 				info := env.of(s.target)
 				info = filterBases(&provInfo{bases: info.bases, protected: protectedTarget(s.target)}, s.target)
 				if s.how == "append" {
